@@ -24,7 +24,7 @@ def graph_same(a, m):
     fa, fm = a.split(), m.split()
     if len(fa) < 2 or len(fm) < 2 or fa[0] != fm[0] or fa[1] != fm[1]:
         return False
-    ta = fa[2].split(";") if len(fa) > 2 and not fa[2].startswith(("counts", "set")) else []
+    ta = fa[2].split(";") if len(fa) > 2 and not fa[2].startswith(("count", "set")) else []
     tm = fm[2].split(";") if len(fm) > 2 else []
     return sorted(set(ta)) == sorted(set(tm))
 
@@ -75,6 +75,9 @@ def run(r: core.Run, prop, module, rule, want):
                 out.append((i, "the accepted value does not print to a text that parses back to an equal value", "impl"))
                 continue
             if kind == "graph":
+                if "count-wrong" in a:
+                    out.append((i, "the graph reader reports a count that is not the number of triples it loaded: " + a[a.index("count-wrong"):][:80], "impl"))
+                    continue
                 if want == "roundtrip":
                     if cls != "ok" or "counts-differ" in a or "set-differs" in a:
                         out.append((i, "writing a graph and reading the text back does not reproduce the graph: " + a[:160], "impl"))
